@@ -53,6 +53,9 @@ for MOD, EV, CANCEL, extra in (
                # C14.before: returning normally after asking means the application completed this
                # phase (or its lifespan task has ended, which releases both events)
                ("C14." + which + ".released", "implies(n_emitted('app_msgs') == 1, self." + which + ".flag)", "C14,C16"),
+               # C14 "exceeding startup_timeout aborts the server": the wait never lasts longer than
+               # the configured timeout, whatever its value (a timeout of 0 is a timeout, not "for ever")
+               ("C14." + which + ".timeout.not-late", "implies(n_emitted('app_msgs') == 1, clock() <= call_time('wait:" + which + "') + self.config." + which + "_timeout)", "C14,C16,C15"),
            ],
            props=("C14", "C16"))
 
